@@ -980,7 +980,7 @@ class CheckC15(TwinCheck):
 class CheckC16(TwinCheck):
     prop = "C16"
     design_ref = "DESIGN.md 5.16"
-    sizes = {"quick": 15000, "thorough": 300000}
+    sizes = {"quick": 10000, "thorough": 300000}
     chunk = 25
     technique = ("deterministic simulation: lock-step twin runs on a box and on its affine image under one scripted RNG stream owned by the "
                  "simulator; mapped event-log equality (bit-exact class / 1e-9 tolerance class)")
